@@ -41,10 +41,16 @@ func NewEthernet() *Ethernet {
 	return eth
 }
 
+// tagged: an 802.1Q tag is written when any of its three fields is set; a priority tag has
+// VLAN id 0 and a priority
+func (e *Ethernet) tagged() bool {
+	return e.VLANID.VID != 0 || e.VLANID.PCP != 0 || e.VLANID.DEI != 0
+}
+
 func (e *Ethernet) Len() (n uint16) {
 	n = 0
 	n += 12
-	if e.VLANID.VID != 0 {
+	if e.tagged() {
 		n += 4
 	}
 	n += 2
@@ -63,7 +69,7 @@ func (e *Ethernet) MarshalBinary() (data []byte, err error) {
 	copy(data[n:], e.HWSrc)
 	n += len(e.HWSrc)
 
-	if e.VLANID.VID != 0 {
+	if e.tagged() {
 		bytes, err = e.VLANID.MarshalBinary()
 		if err != nil {
 			return
